@@ -320,3 +320,48 @@ package protocol
 //@   ensures enabled && !s.isClient ==> s.clientUseLowEntropy.v != 0
 //@   ensures enabled ==> s.trafficPattern != nil && s.trafficPattern.LowEntropy != nil && mode != 0
 //@   ensures !enabled ==> mode == 0
+
+//@ // UDP receive path (C05, C06): the replay fingerprint of a datagram is taken over
+//@ // exactly its first 16 bytes - the part of the nonce every genuine copy shares and
+//@ // that the metadata AEAD tag authenticates; a server returns a segment only after
+//@ // some cipher block decrypted its metadata, and never a segment flagged as replay.
+//@ func (u *PacketUnderlay) readOneSegment() (seg *segment, addr net.Addr, err error)
+//@   property C05
+//@   mode int
+//@   partial
+//@   posts_only
+//@   noframe
+//@   may_panic
+//@   requires u != nil
+//@   assert_call ReplayCache.IsDuplicate: len(arg0) == 16 && baseof(arg0) == baseof(b) && len(b) >= 48
+//@   assert_at "return seg, addr, nil": u.isClient || (!isNewSessionReplay && blockCipher != nil)
+//@   ensures seg != nil && !old(u.isClient) ==> seg.block != nil
+//@   loop 1:
+//@     invariant u.isClient == old(u.isClient)
+//@
+//@ func (u *PacketUnderlay) tryDecryptExistingSession(encryptedMeta []byte, addr net.Addr) (decryptedMeta []byte, blockCipher cipher.BlockCipher, matchedPolicy serveruser.Policy, decrypted bool)
+//@   mode int
+//@   noframe
+//@   preserves PacketUnderlay.baseUnderlay.isClient
+//@   requires u != nil
+//@
+//@ func (u *PacketUnderlay) serverTryDecryptMetadataForNewSession(encryptedMeta []byte, source serveruser.Source) (b cipher.BlockCipher, meta []byte, auth serveruser.Authentication, err error)
+//@   property C05
+//@   mode int
+//@   noframe
+//@   preserves PacketUnderlay.baseUnderlay.isClient
+//@   requires u != nil
+//@   ensures err == nil ==> b != nil
+//@
+//@ // The only functions of this package that put bytes on the wire (C05): everything a
+//@ // receive path does before a segment is authenticated is outside this set.
+//@ struct callers net.PacketConn.WriteTo = {PacketUnderlay.writeOneSegment}
+//@   property C05
+//@ struct callers net.Conn.Write = {StreamUnderlay.writeOneSegment, StreamUnderlay.writeWithPossibleFragment}
+//@   property C05
+//@ struct nocall PacketUnderlay.readOneSegment : PacketUnderlay.writeOneSegment
+//@   property C05
+//@ struct nocall StreamUnderlay.readOneSegment : StreamUnderlay.writeOneSegment
+//@   property C05
+//@ struct nocall StreamUnderlay.readOneSegment : StreamUnderlay.writeWithPossibleFragment
+//@   property C05
